@@ -8,7 +8,7 @@ open Aqv Aqv.Proto Aqv.Tx Aqv.Supply
     tx  <sender> <coinbase> <gas·price> <pre> <log…>                            → balances after the transaction (after Finalise)
         log tokens: S<a>:<v> SubBalance, A<a>:<v> AddBalance, K<a> Suicide (true), k<a> Suicide (false), C<a> CreateAccount,
                     P<id> Snapshot → id, R<id> RevertToSnapshot(id)
-    blk <h> <hf4> <cb> <uncles> <dealloc|-> <pre> <selfdestructs> <Σafter>        → Σafter (exact) | bounded
+    blk <h> <hf4> <hf5> <cb> <uncles> <dealloc|-> <pre> <selfdestructs> <Σafter>        → Σafter (exact) | bounded
   balances = i:bal,i:bal,… (non-zero ones, by account index) | -
 -/
 
@@ -129,11 +129,12 @@ def handleRw (fs : List String) (go : String) : String :=
 
 def handleBlk (fs : List String) (go : String) : String :=
   match fs with
-  | [h, hf4, cb, uncles, dealloc, pre, sd, after] =>
+  | [h, hf4, hf5, cb, uncles, dealloc, pre, sd, after] =>
     match nat? h, nat? cb, parseUncles uncles, parseIdxList dealloc, parseBalances pre, nat? sd, nat? after with
     | some h, some _, some us, some dl, some pre, some sd, some after =>
       let w : SWorld := { bal := pre, nonce := [], rest := [] }
       let w1 := if hf4 == "1" then applyHF4 dl w else w
+      let w1 := if hf5 == "1" then applyHF5 dl w1 else w1     -- misc.ApplyHardFork5 as written: a query per listed account
       let bound := total w1.bal + issuance h us
       let m := if sd == 0 then toString bound else (if after ≤ bound then "bounded" else "exceeds")
       -- Spec on the Go result: never above Σ before + issuance
